@@ -45,6 +45,15 @@ def programs():
             yield (f"{m}.{n}|{rn}|{un}|proto-{pn}", pf(uf(rb, (m, n))) + b".")
 
 
+def proto_positions():
+    """A second PROTO opcode (same / other version) as the k-th opcode for every k up to 40."""
+    for k in range(2, 41):
+        for v2 in (2, 4):
+            body = [("PROTO", 2)] + ["NONE", "POP"] * ((k - 2) // 2) + (["NONE"] if (k - 2) % 2 else [])
+            tail = ["POP"] if (k - 2) % 2 else []
+            yield (f"second-proto-at-{k}/v{v2}", asm(*body, ("PROTO", v2), *tail, "NONE", "STOP"))
+
+
 def _one(item):
     tag, data = item
     out = e1.Out()
@@ -78,7 +87,7 @@ def check(tier):
     dsyms = alphabet("NONE STR MARK TUPLE ETUP EDICT REDUCE OBJ NEWOBJ BUILD SETITEM APPEND POP DUP MEMOIZE BINGET0 PROTO2".split(),
                      [G("m", "eval"), G("operator", "getitem"), INST("os", "open")])
     deviate.run(PROP, deviation_bases(tier), dsyms, [(oracles, "c19_total")], rep)
-    items = list(programs())
+    items = list(programs()) + list(proto_positions())
     for i, v in enumerate(corpus.object_values()[:-1] + corpus.plain_values("quick")[::5]):
         for tag, b in corpus.pickles_of(v, unframed=False):
             items.append((f"corpus[{i}]/{tag}", b))
